@@ -64,6 +64,7 @@ def run(ck):
                                    "tools/front_gen.py printer + ply tokenizer/LALR driver (text <-> tree)",
                                    "tools/run_front_py.py + run_py.py helpers + CPython 3.12",
                                    "no axioms (Print Assumptions: closed)"]
+    fs.ensure_model_translation()
     ck.try_prove("C12.v", model_vo=("theories/Front.vo", "theories/Spec.vo"))
 
     pairs = []
